@@ -51,13 +51,24 @@ class C02Cartesian(Harness):
             add((4, 4), ["pp"], 8, geo="origin")      # all 65536 doubly periodic 4x4 images (chained merges of >= 4 pieces)
             add((2, 2, 2), ["nnn", "pnn", "ppp"], 1, geo="origin")
             add((2, 2, 3), ["nnp", "ppp"], 3, geo="origin")
+            # 5x5 doubly periodic images around a staircase skeleton with three contacts across the boundary of axis 0
+            # (pieces merged several times along one periodic axis, then along the other): 11 free cells, 2048 images
+            # not yet run end-to-end on the unchanged tree: enabled with C02_STAIR=1 only, outside the registered claim
+            tmpl = ["#.#?.", "#?.??", "?#???", ".?#??", "#.#.#"]
+            nsplit = 4
+            for fix in (() if os.environ.get("C02_STAIR") != "1" else itertools.product(".#", repeat=nsplit)):
+                rows, it = [], iter(fix)
+                for r in tmpl:
+                    rows.append("".join(next(it, "?") if ch == "?" else ch for ch in r))
+                c.append(dict(shape=[5, 5], per="pp", fix=[], tmpl=rows, geo="origin",
+                              _cost=2 ** (sum(r.count("?") for r in rows))))
         return c
 
     def sample(self, cfg, rng):
         w = {}
         shape = cfg["shape"]
         for k, idx in enumerate(itertools.product(*[range(n) for n in shape])):
-            if k >= len(cfg["fix"]):
+            if (cfg["tmpl"][idx[0]][idx[1]] == "?") if "tmpl" in cfg else k >= len(cfg["fix"]):
                 w["v" + "_".join(map(str, idx))] = F(rng.choice([1, 9]), 10)
         geo = cfg.get("geo", "sym" if cfg.get("symgeo", True) else "origin")
         for a in range(len(shape)):
@@ -90,7 +101,9 @@ class C02Cartesian(Harness):
         cells = list(itertools.product(*[range(n) for n in shape]))
         data = env.np.empty(shape, dtype=object)
         for k, idx in enumerate(cells):
-            if k < len(cfg["fix"]):
+            if "tmpl" in cfg and cfg["tmpl"][idx[0]][idx[1]] != "?":
+                data[idx] = cfg["tmpl"][idx[0]][idx[1]] == "#"
+            elif "tmpl" not in cfg and k < len(cfg["fix"]):
                 data[idx] = bool(cfg["fix"][k])
             else:
                 data[idx] = env.real("v" + "_".join(map(str, idx)), 0, 1) > F(1, 2)
